@@ -1,0 +1,98 @@
+// Licensed to Apache Software Foundation (ASF) under one or more contributor
+// license agreements. See the NOTICE file distributed with
+// this work for additional information regarding copyright
+// ownership. Apache Software Foundation (ASF) licenses this file to you under
+// the Apache License, Version 2.0 (the "License"); you may
+// not use this file except in compliance with the License.
+// You may obtain a copy of the License at
+//
+//     http://www.apache.org/licenses/LICENSE-2.0
+//
+// Unless required by applicable law or agreed to in writing,
+// software distributed under the License is distributed on an
+// "AS IS" BASIS, WITHOUT WARRANTIES OR CONDITIONS OF ANY
+// KIND, either express or implied.  See the License for the
+// specific language governing permissions and limitations
+// under the License.
+
+//go:build verif
+
+// Contracts for the verification harness (comment-only; compiled only with -tags verif).
+// Syntax: see /verif/DESIGN.md §2.2.
+
+package backup
+
+//@ property C19
+//
+// backupSnapshot keeps a set of the files already present remotely. A file found both locally and remotely is taken
+// out of that set; whatever is left after the walk is deleted remotely as an orphan. So the key taken out must be the
+// very key that was just looked up (the remote path of the local file), and it must be in the set: otherwise an
+// unchanged file of the snapshot stays in the set and is deleted from the backup. Thin contract: the walk callback
+// is run from an arbitrary state on arbitrary arguments (filepath.Walk is external). The clause names no local of the
+// function (arg0, arg1 are the operands of the delete), so renaming locals does not disturb it.
+//@ func filepath.Walk
+//@   property C19
+//@   assumed standard library: walks the tree rooted at root and calls fn for every entry
+//@   opt calls-back fn
+//@ func filepath.Rel
+//@   property C19
+//@   assumed pure path manipulation
+//@   pure
+//@ func filepath.ToSlash
+//@   property C19
+//@   assumed pure path manipulation
+//@   pure
+//@ func path.Join
+//@   property C19
+//@   assumed pure path manipulation
+//@   pure
+//@ func remote.FS.List
+//@   property C19
+//@   assumed remote object store (external): some list of remote paths
+//@ func remote.FS.Delete
+//@   property C19
+//@   assumed remote object store (external)
+//@ func context.WithCancel
+//@   property C19
+//@   assumed standard library
+//@ func errgroup.WithContext
+//@   property C19
+//@   assumed golang.org/x/sync: a group of upload goroutines
+//@ func errgroup.Group.SetLimit
+//@   property C19
+//@   assumed golang.org/x/sync
+//@ func errgroup.Group.Go
+//@   property C19
+//@   assumed golang.org/x/sync: runs the upload concurrently; uploads do not touch the set of remote files
+//@ func errgroup.Group.Wait
+//@   property C19
+//@   assumed golang.org/x/sync
+//@ func errors.Is
+//@   property C19
+//@   assumed standard library
+//@   pure
+//@ func context.Context.Err
+//@   property C19
+//@   assumed standard library
+//@ func fs.FileInfo.IsDir
+//@   property C19
+//@   assumed file metadata (external)
+//@   pure
+//@ func fs.FileInfo.Size
+//@   property C19
+//@   assumed file metadata (external)
+//@   pure
+//@ func uploadFile
+//@   property C19
+//@   assumed for this contract: uploads one file; it is given neither the set of remote files nor the means to delete
+//@ func logger.Warningf
+//@   property C19
+//@   assumed logging
+//@ func func:cancelUploads
+//@   property C19
+//@   assumed the cancel function context.WithCancel returned (a func value): cancels the upload context, nothing else
+//@ func backupSnapshot#present-files-leave-the-orphan-set
+//@   property C19
+//@   mode int
+//@   opt only-stated
+//@   at-call delete requires drops-a-file-just-found-in-the-set: haskey(arg0, arg1)
